@@ -128,6 +128,9 @@ func v14Build(r *verifrt.R, c *verifrt.Case, mode, flavor string) *v14Session {
 			if flavor == "frame-boundary" {
 				v14Boundary(e, cf, int(c.Index%4))
 			}
+			if flavor == "over-limit-trailers" && wi == 0 && i == 0 {
+				v14OverLimitTrailers(rng, e, cf)
+			}
 			total += e.ReqBody.Len + e.RespBody.Len
 			s.ex = append(s.ex, e)
 			idx++
@@ -238,6 +241,14 @@ func (s *v14Session) evaluate() {
 			// about the exchange can be concluded then. (In the bubble that timer only fires
 			// when the connection is genuinely stalled.)
 			r.Event("realtime_exchanges_lost_before_server_settings_ack", 1)
+			continue
+		}
+		if e.Refused != "" {
+			if g.Err != nil {
+				r.Event("requests_with_over_limit_trailers_refused", 1)
+			} else {
+				r.Event("requests_with_over_limit_trailers_sent_all_the_same", 1)
+			}
 			continue
 		}
 		if g.Err != nil {
@@ -720,6 +731,7 @@ func TestVerif_C14(t *testing.T) {
 	r.CasesParallel("bubble-near-limit", r.N(60, 40), 0, run("bubble", "near-limit"))
 	r.CasesParallel("bubble-early", r.N(60, 40), 0, run("bubble", "early"))
 	r.CasesParallel("bubble-frame-boundary", r.N(8, 16), 0, run("bubble", "frame-boundary"))
+	r.CasesParallel("bubble-over-limit-trailers", r.N(40, 120), 0, run("bubble", "over-limit-trailers"))
 	r.CasesParallel("realtime", r.N(160, 120), runtime.GOMAXPROCS(0), run("realtime", "general"))
 	r.CasesParallel("realtime-tiny-window", r.N(40, 30), runtime.GOMAXPROCS(0), run("realtime", "tiny-window"))
 
@@ -733,6 +745,7 @@ func TestVerif_C14(t *testing.T) {
 	r.Require("sessions_bubble", 100)
 	r.Require("sessions_realtime", 50)
 	r.Require("near_limit_header_sets_req", 5)
+	r.Require("requests_with_over_limit_trailers_refused", 10)
 	r.Require("header_blocks_of_exactly_a_multiple_of_16384_octets_c2s", 1)
 	r.Require("header_blocks_of_exactly_a_multiple_of_16384_octets_s2c", 1)
 	r.Require("near_limit_header_sets_resp", 5)
